@@ -83,6 +83,8 @@ MUTANTS = [
     M("idx-benign-unread-capacities", HU, "                cf[v][i] = 1\n                cf[i][v] = -1\n", "                cf[v][i] = 1\n", None,
       note="sweep survivor: the capacity of the direction that is NOT a residual edge is never read (delta ranges over path "
            "edges, which are residual edges; the flow network has no antiparallel edges)"),
+    M("idx-benign-sink-reached-is-not-none", HU, "    if bfs_tree[len(graph) - 1]:\n", "    if bfs_tree[len(graph) - 1] is not None:\n", None),
+    M("sink-reached-test-inverted", HU, "    if bfs_tree[len(graph) - 1]:\n", "    if bfs_tree[len(graph) - 1] is None:\n", "C08.3"),
     M("path-edges-reversed", HU, "            path.insert(0, (bfs_tree[n], n))\n", "            path.insert(0, (n, bfs_tree[n]))\n", "C08.3"),
 
     # ---- C08.4 bfs discipline
@@ -97,6 +99,10 @@ MUTANTS = [
 
     M("bfs-benign-explored-not-blackened", HU, "        color[n] = BLACK\n", "", None,
       note="sweep survivor: GRAY already is non-WHITE, BLACK is never tested"),
+    M("bfs-benign-tables-by-multiplication", HU, "    color        = [WHITE for i in range(len(graph))]\n    predecessor  = [None for i in range(len(graph))]\n",
+      "    color        = [WHITE] * len(graph)\n    predecessor  = [None] * len(graph)\n", None),
+    M("bfs-all-start-gray", HU, "    color        = [WHITE for i in range(len(graph))]\n", "    color        = [GRAY] * len(graph)\n", "C08.4"),
+    M("bfs-predecessor-table-short", HU, "    predecessor  = [None for i in range(len(graph))]\n", "    predecessor  = [None] * (len(graph) - 1)\n", "C08.4"),
     M("bfs-benign-no-distance", HU, "                distance[v] = distance[n] + 1\n", "", None,
       note="sweep survivor: distance is never read"),
 
